@@ -819,6 +819,15 @@ class Built(object):
             return {'u_tag': tag, 'u_n': 3}
         if b == 'raises':
             raise UserError('injected: metadata extractor fails')
+        if b == 'ok_then_unencodable':
+            # several entries; one that is not the first cannot be encoded (it holds a live resource)
+            from collections import OrderedDict
+            return OrderedDict([('u_tag', tag), ('u_n', 3), ('u_conn', Unencodable()), ('u_last', 'x')])
+        if b == 'discards':
+            # an extractor that decides, after the fact, that this run must not be kept
+            if self.recorder is not None:
+                self.recorder.discard_recording()
+            return {'u_tag': tag, 'u_n': 3}
         if b == 'interrupts':
             raise InterruptLike('injected: the process is interrupted while the metadata extractor runs')
         if b == 'junk_none':
